@@ -154,6 +154,67 @@ func buildVal(t tdesc, v vdesc, rt reflect.Type) reflect.Value {
 	return out
 }
 
+// encodeVal is the inverse of buildVal: the value descriptor of a Go value of the described type.
+func encodeVal(t tdesc, v reflect.Value) jm {
+	switch t.K {
+	case "bool":
+		return jm{"k": "bool", "v": v.Bool()}
+	case "int8", "int16", "int32", "int64", "int":
+		return jm{"k": "int", "v": strconv.FormatInt(v.Int(), 10)}
+	case "dur":
+		return jm{"k": "dur", "v": strconv.FormatInt(v.Int(), 10)}
+	case "uint8", "uint16", "uint32", "uint64", "uint":
+		return jm{"k": "uint", "v": strconv.FormatUint(v.Uint(), 10)}
+	case "float32", "float64":
+		return jm{"k": "float", "v": strconv.FormatFloat(v.Float(), 'g', -1, 64)}
+	case "string", "ustr", "uany":
+		return jm{"k": "string", "v": v.String()}
+	case "ptr":
+		if v.IsNil() {
+			return jm{"k": "ptr", "nil": true}
+		}
+		return jm{"k": "ptr", "p": encodeVal(*t.E, v.Elem())}
+	case "slice", "array":
+		if t.K == "slice" && v.IsNil() {
+			return jm{"k": "slice", "nil": true}
+		}
+		xs := []interface{}{}
+		for i := 0; i < v.Len(); i++ {
+			xs = append(xs, encodeVal(*t.E, v.Index(i)))
+		}
+		return jm{"k": t.K, "xs": xs}
+	case "map":
+		if v.IsNil() {
+			return jm{"k": "map", "nil": true}
+		}
+		m := jm{}
+		for _, k := range v.MapKeys() {
+			m[k.String()] = encodeVal(*t.E, v.MapIndex(k))
+		}
+		return jm{"k": "map", "m": m}
+	case "struct":
+		fs := []interface{}{}
+		for i, f := range t.F {
+			fs = append(fs, encodeVal(f.T, v.Field(i)))
+		}
+		return jm{"k": "struct", "f": fs}
+	}
+	panic("encode " + t.K)
+}
+
+// hasInlineMap: the type holds an `,inline` map somewhere (open finding KF-28: not claimed by the frame events)
+func hasInlineMap(t tdesc) bool {
+	if t.E != nil && hasInlineMap(*t.E) {
+		return true
+	}
+	for _, f := range t.F {
+		if (f.Mode == "inline" && f.T.K == "map") || hasInlineMap(f.T) {
+			return true
+		}
+	}
+	return false
+}
+
 // eqPack: equality modulo nil ~ empty collections; ignored fields must come back zero.
 func eqPack(t tdesc, a, b reflect.Value) bool {
 	switch t.K {
@@ -690,6 +751,57 @@ func packDrive(args []string) int {
 					}
 					ev["fault"] = jm{"path": segs, "tree": ft, "obs": jm{"kind": o.Kind, "path": o.Path, "source": o.Source, "typed": o.Typed, "msg": o.Msg}}
 				}
+			}
+		}
+		// C13 (frame): the same configuration - with the settings of a random subset of the top-level fields removed -
+		// unpacked into a target pre-filled with a SECOND random value of the type
+		if ev["back"] == "same" && !hasInlineMap(ty) {
+			oldJ := g.val(tyJ)
+			var oldV vdesc
+			ob, _ := json.Marshal(oldJ)
+			if json.Unmarshal(ob, &oldV) == nil {
+				drop := []interface{}{}
+				var dropPaths []string
+				for fi, f := range ty.F {
+					if f.Mode == "" && g.rng.Intn(3) == 0 {
+						name := strings.Join(f.Tag, ".")
+						if len(f.Tag) == 0 {
+							name = strings.ToLower(f.N)
+						}
+						drop = append(drop, fi+1)
+						dropPaths = append(dropPaths, name)
+					}
+				}
+				pol := []string{"default", "default", "append", "prepend", "replace"}[g.rng.Intn(5)]
+				uopts := append([]ucfg.Option{sep}, polOption(pol)...)
+				fr := jm{"old": oldJ, "drop": drop, "pol": pol}
+				panicked, msg := guard(func() {
+					cfg, err := ucfg.NewFrom(buildVal(ty, val, rt).Interface(), sep)
+					if err != nil {
+						fr["err"] = "pack: " + err.Error()
+						return
+					}
+					for _, dp := range dropPaths {
+						if _, err := cfg.Remove(dp, -1, sep); err != nil {
+							fr["err"] = "remove: " + err.Error()
+							return
+						}
+					}
+					target := reflect.New(rt)
+					target.Elem().Set(buildVal(ty, oldV, rt))
+					if err := cfg.Unpack(target.Interface(), uopts...); err != nil {
+						fr["err"] = "unpack: " + err.Error()
+						return
+					}
+					fr["got"] = encodeVal(ty, target.Elem())
+				})
+				if panicked {
+					fr["err"] = "panic: " + msg
+				}
+				// descriptors as the encoder writes them (number texts in one canonical spelling)
+				fr["old"] = encodeVal(ty, buildVal(ty, oldV, rt))
+				fr["new"] = encodeVal(ty, buildVal(ty, val, rt))
+				ev["frame"] = fr
 			}
 		}
 		if w.Encode(ev) != nil {
